@@ -415,6 +415,21 @@ def _check_case(case) -> Verdict:
     if ref.kind != branch:
         v.label(f"branch-mismatch:{branch}->{ref.kind}")
     bad = [k for k, r in ratios.items() if not r <= 1.0]
+    if bad and ref.kind == branch and branch != "detonation":
+        # Exact matchings need not be unique (e.g. a sound speed frozen beyond the tabulated range gives a
+        # second hybrid).  The returned tuple is accepted if it is itself an exact matching to backward
+        # error: junction (checked above), v- on its branch condition, and the reference flow started from
+        # the returned (v+, T+) reaching Tn.
+        try:
+            sh_own = R.integrate_shock(eos, vw, vp, Tp, want_kappa=False)
+            b_own, _ = R.shock_backward_bound(eos, Tn, vw, vp, vm, Tp, Tm, branch, rtol, atol, K)
+            vm_ok = (vm == vw) if branch == "deflagration" else abs(vm - math.sqrt(eos.cb2(Tm))) <= 1e-9
+            if sh_own.ok and sh_own.kind != "front-at-wall" and abs(sh_own.Tn_out - Tn) <= b_own and vm_ok:
+                v.label("second-exact-solution")
+                v.info["second_solution"] = {"returned": [vp, vm, Tp, Tm], "reference": [rvp, rvm, rTp, rTm]}
+                bad = []
+        except R.RefFailure:
+            pass
     if bad and ref.kind == branch:
         k0 = max(bad, key=lambda k: ratios[k])
         sub = "exact"
